@@ -60,6 +60,7 @@ def pair_calculator():
             self.evals = getattr(self, "evals", 0) + 1
             x = atoms.positions
             n = len(x)
+            z = atoms.numbers
             e, f = 0.0, np.zeros((n, 3))
             cell = atoms.cell.array
             inv = np.linalg.inv(cell) if atoms.pbc.any() and abs(np.linalg.det(cell)) > 1e-9 else None
@@ -71,8 +72,9 @@ def pair_calculator():
                         s -= np.round(s)
                         d = s @ cell
                     r2 = d @ d + 0.3
-                    e += 1.0 / r2 ** 2 - 0.5 / r2
-                    g = (-4.0 / r2 ** 3 + 1.0 / r2 ** 2)
+                    w = 1.0 if z[i] == z[j] else 1.3           # unlike pairs interact more strongly: the energy depends on WHICH atom sits where
+                    e += w * (1.0 / r2 ** 2 - 0.5 / r2)
+                    g = w * (-4.0 / r2 ** 3 + 1.0 / r2 ** 2)
                     f[i] -= g * d
                     f[j] += g * d
             self.results = {"energy": e, "forces": f}
